@@ -118,25 +118,25 @@ macro_rules! ostep {
 }
 
 // ---- grid ----
-// @h prop=C02 unwind=10 rec=2 cutfmt=1 uw=same_output.0:25;exit_model.0:25;exit.0:25;push.0:17;write.0:17 timeout=600 mem=12 what=형_commits
+// @h prop=C02 unwind=10 rec=2 cutfmt=1 uw=same_output.0:25;exit_model.0:25;exit.0:25;push.0:17;write.0:17 timeout=1200 mem=12 what=형_commits
 ostep!(o_push, Cfg { kind: 0, h: 2, d: 3, depth: [0, 0, 0, 1, 0, 0], ..CFG0 });
-// @h prop=C02 unwind=10 rec=2 cutfmt=1 uw=same_output.0:25;exit_model.0:25;exit.0:25;push.0:17;write.0:17 timeout=600 mem=12 what=항_2_operands
+// @h prop=C02 unwind=10 rec=2 cutfmt=1 uw=same_output.0:25;exit_model.0:25;exit.0:25;push.0:17;write.0:17 timeout=1200 mem=12 what=항_2_operands
 ostep!(o_add2, Cfg { kind: 1, h: 2, d: 4, depth: [0, 0, 0, 3, 1, 0], ..CFG0 });
-// @h prop=C02 unwind=10 rec=2 cutfmt=1 uw=same_output.0:25;exit_model.0:25;exit.0:25;push.0:17;write.0:17 timeout=600 mem=12 what=핫_2_operands
+// @h prop=C02 unwind=10 rec=2 cutfmt=1 uw=same_output.0:25;exit_model.0:25;exit.0:25;push.0:17;write.0:17 timeout=1200 mem=12 what=핫_2_operands
 ostep!(o_mul2, Cfg { kind: 2, h: 2, d: 5, depth: [0, 0, 0, 2, 0, 1], ..CFG0 });
-// @h prop=C02 unwind=10 rec=2 cutfmt=1 uw=same_output.0:25;exit_model.0:25;exit.0:25;push.0:17;write.0:17 timeout=600 mem=12 what=흣_1_operand
+// @h prop=C02 unwind=10 rec=2 cutfmt=1 uw=same_output.0:25;exit_model.0:25;exit.0:25;push.0:17;write.0:17 timeout=1200 mem=12 what=흣_1_operand
 ostep!(o_neg1, Cfg { kind: 3, h: 1, d: 4, depth: [0, 0, 0, 2, 0, 0], ..CFG0 });
-// @h prop=C02 unwind=10 rec=2 cutfmt=1 uw=same_output.0:25;exit_model.0:25;exit.0:25;push.0:17;write.0:17 timeout=600 mem=12 what=흣_2_operands:restored_in_original_order
+// @h prop=C02 unwind=10 rec=2 cutfmt=1 uw=same_output.0:25;exit_model.0:25;exit.0:25;push.0:17;write.0:17 timeout=1200 mem=12 what=흣_2_operands:restored_in_original_order
 ostep!(o_neg2, Cfg { kind: 3, h: 2, d: 4, depth: [0, 0, 0, 2, 0, 0], ..CFG0 });
 // @h prop=C02 unwind=10 rec=2 cutfmt=1 uw=same_output.0:25;exit_model.0:25;exit.0:25;push.0:17;write.0:17 timeout=900 tier=thorough kind=stretch what=흣_3_operands
 ostep!(o_neg3, Cfg { kind: 3, h: 3, d: 4, depth: [0, 0, 0, 3, 0, 0], ..CFG0 });
 // @h prop=C02 unwind=10 rec=2 cutfmt=1 uw=same_output.0:25;exit_model.0:25;exit.0:25;push.0:17;write.0:17 timeout=900 what=흡_2_operands:restored_in_original_order
 ostep!(o_inv2, Cfg { kind: 4, h: 2, d: 4, dom: Dom::Frac, depth: [0, 0, 0, 2, 0, 0], ..CFG0 });
-// @h prop=C02 unwind=10 rec=2 cutfmt=1 uw=same_output.0:25;exit_model.0:25;exit.0:25;push.0:17;write.0:17 timeout=600 mem=12 what=흑_select_4
+// @h prop=C02 unwind=10 rec=2 cutfmt=1 uw=same_output.0:25;exit_model.0:25;exit.0:25;push.0:17;write.0:17 timeout=1200 mem=12 what=흑_select_4
 ostep!(o_dup1, Cfg { kind: 5, h: 1, d: 4, depth: [0, 0, 0, 2, 1, 0], ..CFG0 });
 // @h prop=C02 unwind=10 rec=3 cutfmt=1 uw=same_output.0:25;exit_model.0:25;exit.0:25;push.0:17;write.0:17 timeout=900 tier=thorough kind=stretch what=흑_then_?_on_the_new_stack
 ostep!(o_dup_area, Cfg { kind: 5, h: 1, d: 4, area: 3, depth: [0, 0, 0, 2, 2, 0], ..CFG0 });
-// @h prop=C02 unwind=10 rec=2 cutfmt=1 uw=same_output.0:25;exit_model.0:25;exit.0:25;push.0:17;write.0:17 timeout=600 mem=12 what=label_registration_is_part_of_the_committed_state
+// @h prop=C02 unwind=10 rec=2 cutfmt=1 uw=same_output.0:25;exit_model.0:25;exit.0:25;push.0:17;write.0:17 timeout=1200 mem=12 what=label_registration_is_part_of_the_committed_state
 ostep!(o_heart_new, Cfg { kind: 0, h: 1, d: 2, area: 1, depth: [0, 0, 0, 1, 0, 0], ..CFG0 });
 // @h prop=C02 unwind=10 rec=3 cutfmt=1 uw=same_output.0:25;exit_model.0:25;exit.0:25;push.0:17;write.0:17 timeout=900 what=?_area_pop_on_stack_3
 ostep!(o_q, Cfg { kind: 0, h: 1, d: 2, area: 3, depth: [0, 0, 0, 2, 0, 0], ..CFG0 });
@@ -150,53 +150,53 @@ ostep!(o_print_then_bail, Cfg { kind: 0, h: 8, d: 8, cur: 1, area: 3, depth: [0,
 ostep!(o_dup_print_bail, Cfg { kind: 5, h: 2, d: 1, area: 4, dom: Dom::Scalar, depth: [0, 0, 0, 1, 0, 0], ..CFG0 });
 // @h prop=C02 unwind=10 rec=3 cutfmt=num uw=same_output.0:25;exit_model.0:25;exit.0:25;push.0:17;write.0:17 timeout=900 tier=thorough kind=stretch what=흣_to_stderr_then_?_on_stack_3:commits_with_output
 ostep!(o_neg_out_bail, Cfg { kind: 3, h: 1, d: 2, cur: 3, area: 3, dom: Dom::Digit, depth: [0, 0, 0, 1, 0, 0], ..CFG0 });
-// @h prop=C10 unwind=10 rec=2 cutfmt=1 uw=same_output.0:25;exit_model.0:25;exit.0:25;push.0:17;write.0:17 timeout=600 mem=12 what=kind_1_with_stack_0_selected:gives_up,state_untouched,no_read,no_exit,no_output
+// @h prop=C10 unwind=10 rec=2 cutfmt=1 uw=same_output.0:25;exit_model.0:25;exit.0:25;push.0:17;write.0:17 timeout=1200 mem=12 what=kind_1_with_stack_0_selected:gives_up,state_untouched,no_read,no_exit,no_output
 ostep!(n_k1_c0, Cfg { kind: 1, h: 1, d: 3, cur: 0, depth: [1, 0, 0, 1, 0, 0], ..CFG0 });
-// @h prop=C10 unwind=10 rec=2 cutfmt=1 uw=same_output.0:25;exit_model.0:25;exit.0:25;push.0:17;write.0:17 timeout=600 mem=12 what=kind_2_with_stack_0_selected:gives_up,state_untouched,no_read,no_exit,no_output
+// @h prop=C10 unwind=10 rec=2 cutfmt=1 uw=same_output.0:25;exit_model.0:25;exit.0:25;push.0:17;write.0:17 timeout=1200 mem=12 what=kind_2_with_stack_0_selected:gives_up,state_untouched,no_read,no_exit,no_output
 ostep!(n_k2_c0, Cfg { kind: 2, h: 2, d: 3, cur: 0, depth: [1, 0, 0, 1, 0, 0], ..CFG0 });
-// @h prop=C10 unwind=10 rec=2 cutfmt=1 uw=same_output.0:25;exit_model.0:25;exit.0:25;push.0:17;write.0:17 timeout=600 mem=12 what=kind_3_with_stack_0_selected:gives_up,state_untouched,no_read,no_exit,no_output
+// @h prop=C10 unwind=10 rec=2 cutfmt=1 uw=same_output.0:25;exit_model.0:25;exit.0:25;push.0:17;write.0:17 timeout=1200 mem=12 what=kind_3_with_stack_0_selected:gives_up,state_untouched,no_read,no_exit,no_output
 ostep!(n_k3_c0, Cfg { kind: 3, h: 2, d: 3, cur: 0, depth: [1, 0, 0, 1, 0, 0], ..CFG0 });
-// @h prop=C10 unwind=10 rec=2 cutfmt=1 uw=same_output.0:25;exit_model.0:25;exit.0:25;push.0:17;write.0:17 timeout=600 mem=12 what=kind_4_with_stack_0_selected:gives_up,state_untouched,no_read,no_exit,no_output
+// @h prop=C10 unwind=10 rec=2 cutfmt=1 uw=same_output.0:25;exit_model.0:25;exit.0:25;push.0:17;write.0:17 timeout=1200 mem=12 what=kind_4_with_stack_0_selected:gives_up,state_untouched,no_read,no_exit,no_output
 ostep!(n_k4_c0, Cfg { kind: 4, h: 1, d: 3, cur: 0, depth: [1, 0, 0, 1, 0, 0], ..CFG0 });
-// @h prop=C10 unwind=10 rec=2 cutfmt=1 uw=same_output.0:25;exit_model.0:25;exit.0:25;push.0:17;write.0:17 timeout=600 mem=12 what=kind_5_with_stack_0_selected:gives_up,state_untouched,no_read,no_exit,no_output
+// @h prop=C10 unwind=10 rec=2 cutfmt=1 uw=same_output.0:25;exit_model.0:25;exit.0:25;push.0:17;write.0:17 timeout=1200 mem=12 what=kind_5_with_stack_0_selected:gives_up,state_untouched,no_read,no_exit,no_output
 ostep!(n_k5_c0, Cfg { kind: 5, h: 1, d: 3, cur: 0, depth: [1, 0, 0, 1, 0, 0], ..CFG0 });
-// @h prop=C10 unwind=10 rec=3 cutfmt=num uw=same_output.0:25;exit_model.0:25;exit.0:25;push.0:17;write.0:17 timeout=600 mem=12 what=형?_with_stack_0_selected:push_then_area_pop->gives_up
+// @h prop=C10 unwind=10 rec=3 cutfmt=num uw=same_output.0:25;exit_model.0:25;exit.0:25;push.0:17;write.0:17 timeout=1200 mem=12 what=형?_with_stack_0_selected:push_then_area_pop->gives_up
 ostep!(n_area_c0, Cfg { kind: 0, h: 1, d: 1, cur: 0, area: 3, depth: [1, 0, 0, 1, 0, 0], ..CFG0 });
-// @h prop=C10 unwind=10 rec=3 cutfmt=num uw=same_output.0:25;exit_model.0:25;exit.0:25;push.0:17;write.0:17 timeout=600 mem=12 what=흑_selects_stack_0_then_!_area_pop->gives_up
+// @h prop=C10 unwind=10 rec=3 cutfmt=num uw=same_output.0:25;exit_model.0:25;exit.0:25;push.0:17;write.0:17 timeout=1200 mem=12 what=흑_selects_stack_0_then_!_area_pop->gives_up
 ostep!(n_dup_to_c0, Cfg { kind: 5, h: 1, d: 0, area: 4, depth: [1, 0, 0, 1, 0, 0], ..CFG0 });
-// @h prop=C10 unwind=10 rec=2 cutfmt=1 uw=same_output.0:25;exit_model.0:25;exit.0:25;push.0:17;write.0:17 timeout=600 mem=12 what=kind_1_with_stack_1_selected:gives_up,state_untouched,no_read,no_exit,no_output
+// @h prop=C10 unwind=10 rec=2 cutfmt=1 uw=same_output.0:25;exit_model.0:25;exit.0:25;push.0:17;write.0:17 timeout=1200 mem=12 what=kind_1_with_stack_1_selected:gives_up,state_untouched,no_read,no_exit,no_output
 ostep!(n_k1_c1, Cfg { kind: 1, h: 1, d: 3, cur: 1, depth: [1, 0, 0, 1, 0, 0], ..CFG0 });
-// @h prop=C10 unwind=10 rec=2 cutfmt=1 uw=same_output.0:25;exit_model.0:25;exit.0:25;push.0:17;write.0:17 timeout=600 mem=12 what=kind_2_with_stack_1_selected:gives_up,state_untouched,no_read,no_exit,no_output
+// @h prop=C10 unwind=10 rec=2 cutfmt=1 uw=same_output.0:25;exit_model.0:25;exit.0:25;push.0:17;write.0:17 timeout=1200 mem=12 what=kind_2_with_stack_1_selected:gives_up,state_untouched,no_read,no_exit,no_output
 ostep!(n_k2_c1, Cfg { kind: 2, h: 2, d: 3, cur: 1, depth: [1, 0, 0, 1, 0, 0], ..CFG0 });
-// @h prop=C10 unwind=10 rec=2 cutfmt=1 uw=same_output.0:25;exit_model.0:25;exit.0:25;push.0:17;write.0:17 timeout=600 mem=12 what=kind_3_with_stack_1_selected:gives_up,state_untouched,no_read,no_exit,no_output
+// @h prop=C10 unwind=10 rec=2 cutfmt=1 uw=same_output.0:25;exit_model.0:25;exit.0:25;push.0:17;write.0:17 timeout=1200 mem=12 what=kind_3_with_stack_1_selected:gives_up,state_untouched,no_read,no_exit,no_output
 ostep!(n_k3_c1, Cfg { kind: 3, h: 2, d: 3, cur: 1, depth: [1, 0, 0, 1, 0, 0], ..CFG0 });
-// @h prop=C10 unwind=10 rec=2 cutfmt=1 uw=same_output.0:25;exit_model.0:25;exit.0:25;push.0:17;write.0:17 timeout=600 mem=12 what=kind_4_with_stack_1_selected:gives_up,state_untouched,no_read,no_exit,no_output
+// @h prop=C10 unwind=10 rec=2 cutfmt=1 uw=same_output.0:25;exit_model.0:25;exit.0:25;push.0:17;write.0:17 timeout=1200 mem=12 what=kind_4_with_stack_1_selected:gives_up,state_untouched,no_read,no_exit,no_output
 ostep!(n_k4_c1, Cfg { kind: 4, h: 1, d: 3, cur: 1, depth: [1, 0, 0, 1, 0, 0], ..CFG0 });
-// @h prop=C10 unwind=10 rec=2 cutfmt=1 uw=same_output.0:25;exit_model.0:25;exit.0:25;push.0:17;write.0:17 timeout=600 mem=12 what=kind_5_with_stack_1_selected:gives_up,state_untouched,no_read,no_exit,no_output
+// @h prop=C10 unwind=10 rec=2 cutfmt=1 uw=same_output.0:25;exit_model.0:25;exit.0:25;push.0:17;write.0:17 timeout=1200 mem=12 what=kind_5_with_stack_1_selected:gives_up,state_untouched,no_read,no_exit,no_output
 ostep!(n_k5_c1, Cfg { kind: 5, h: 1, d: 3, cur: 1, depth: [1, 0, 0, 1, 0, 0], ..CFG0 });
-// @h prop=C10 unwind=10 rec=3 cutfmt=num uw=same_output.0:25;exit_model.0:25;exit.0:25;push.0:17;write.0:17 timeout=600 mem=12 what=형?_with_stack_1_selected:push_then_area_pop->gives_up
+// @h prop=C10 unwind=10 rec=3 cutfmt=num uw=same_output.0:25;exit_model.0:25;exit.0:25;push.0:17;write.0:17 timeout=1200 mem=12 what=형?_with_stack_1_selected:push_then_area_pop->gives_up
 ostep!(n_area_c1, Cfg { kind: 0, h: 1, d: 1, cur: 1, area: 3, depth: [1, 0, 0, 1, 0, 0], ..CFG0 });
-// @h prop=C10 unwind=10 rec=3 cutfmt=num uw=same_output.0:25;exit_model.0:25;exit.0:25;push.0:17;write.0:17 timeout=600 mem=12 tier=thorough kind=stretch what=흑_selects_stack_1_then_!_area_pop->gives_up
+// @h prop=C10 unwind=10 rec=3 cutfmt=num uw=same_output.0:25;exit_model.0:25;exit.0:25;push.0:17;write.0:17 timeout=1200 mem=12 tier=thorough kind=stretch what=흑_selects_stack_1_then_!_area_pop->gives_up
 ostep!(n_dup_to_c1, Cfg { kind: 5, h: 1, d: 1, area: 4, dom: Dom::Digit, depth: [1, 0, 0, 1, 0, 0], ..CFG0 });
-// @h prop=C10 unwind=10 rec=2 cutfmt=1 uw=same_output.0:25;exit_model.0:25;exit.0:25;push.0:17;write.0:17 timeout=600 mem=12 what=kind_1_with_stack_2_selected:gives_up,state_untouched,no_read,no_exit,no_output
+// @h prop=C10 unwind=10 rec=2 cutfmt=1 uw=same_output.0:25;exit_model.0:25;exit.0:25;push.0:17;write.0:17 timeout=1200 mem=12 what=kind_1_with_stack_2_selected:gives_up,state_untouched,no_read,no_exit,no_output
 ostep!(n_k1_c2, Cfg { kind: 1, h: 1, d: 3, cur: 2, depth: [1, 0, 0, 1, 0, 0], ..CFG0 });
-// @h prop=C10 unwind=10 rec=2 cutfmt=1 uw=same_output.0:25;exit_model.0:25;exit.0:25;push.0:17;write.0:17 timeout=600 mem=12 what=kind_2_with_stack_2_selected:gives_up,state_untouched,no_read,no_exit,no_output
+// @h prop=C10 unwind=10 rec=2 cutfmt=1 uw=same_output.0:25;exit_model.0:25;exit.0:25;push.0:17;write.0:17 timeout=1200 mem=12 what=kind_2_with_stack_2_selected:gives_up,state_untouched,no_read,no_exit,no_output
 ostep!(n_k2_c2, Cfg { kind: 2, h: 2, d: 3, cur: 2, depth: [1, 0, 0, 1, 0, 0], ..CFG0 });
-// @h prop=C10 unwind=10 rec=2 cutfmt=1 uw=same_output.0:25;exit_model.0:25;exit.0:25;push.0:17;write.0:17 timeout=600 mem=12 what=kind_3_with_stack_2_selected:gives_up,state_untouched,no_read,no_exit,no_output
+// @h prop=C10 unwind=10 rec=2 cutfmt=1 uw=same_output.0:25;exit_model.0:25;exit.0:25;push.0:17;write.0:17 timeout=1200 mem=12 what=kind_3_with_stack_2_selected:gives_up,state_untouched,no_read,no_exit,no_output
 ostep!(n_k3_c2, Cfg { kind: 3, h: 2, d: 3, cur: 2, depth: [1, 0, 0, 1, 0, 0], ..CFG0 });
-// @h prop=C10 unwind=10 rec=2 cutfmt=1 uw=same_output.0:25;exit_model.0:25;exit.0:25;push.0:17;write.0:17 timeout=600 mem=12 what=kind_4_with_stack_2_selected:gives_up,state_untouched,no_read,no_exit,no_output
+// @h prop=C10 unwind=10 rec=2 cutfmt=1 uw=same_output.0:25;exit_model.0:25;exit.0:25;push.0:17;write.0:17 timeout=1200 mem=12 what=kind_4_with_stack_2_selected:gives_up,state_untouched,no_read,no_exit,no_output
 ostep!(n_k4_c2, Cfg { kind: 4, h: 1, d: 3, cur: 2, depth: [1, 0, 0, 1, 0, 0], ..CFG0 });
-// @h prop=C10 unwind=10 rec=2 cutfmt=1 uw=same_output.0:25;exit_model.0:25;exit.0:25;push.0:17;write.0:17 timeout=600 mem=12 what=kind_5_with_stack_2_selected:gives_up,state_untouched,no_read,no_exit,no_output
+// @h prop=C10 unwind=10 rec=2 cutfmt=1 uw=same_output.0:25;exit_model.0:25;exit.0:25;push.0:17;write.0:17 timeout=1200 mem=12 what=kind_5_with_stack_2_selected:gives_up,state_untouched,no_read,no_exit,no_output
 ostep!(n_k5_c2, Cfg { kind: 5, h: 1, d: 3, cur: 2, depth: [1, 0, 0, 1, 0, 0], ..CFG0 });
-// @h prop=C10 unwind=10 rec=3 cutfmt=num uw=same_output.0:25;exit_model.0:25;exit.0:25;push.0:17;write.0:17 timeout=600 mem=12 what=형?_with_stack_2_selected:push_then_area_pop->gives_up
+// @h prop=C10 unwind=10 rec=3 cutfmt=num uw=same_output.0:25;exit_model.0:25;exit.0:25;push.0:17;write.0:17 timeout=1200 mem=12 what=형?_with_stack_2_selected:push_then_area_pop->gives_up
 ostep!(n_area_c2, Cfg { kind: 0, h: 1, d: 1, cur: 2, area: 3, depth: [1, 0, 0, 1, 0, 0], ..CFG0 });
-// @h prop=C10 unwind=10 rec=3 cutfmt=num uw=same_output.0:25;exit_model.0:25;exit.0:25;push.0:17;write.0:17 timeout=600 mem=12 tier=thorough kind=stretch what=흑_selects_stack_2_then_!_area_pop->gives_up
+// @h prop=C10 unwind=10 rec=3 cutfmt=num uw=same_output.0:25;exit_model.0:25;exit.0:25;push.0:17;write.0:17 timeout=1200 mem=12 tier=thorough kind=stretch what=흑_selects_stack_2_then_!_area_pop->gives_up
 ostep!(n_dup_to_c2, Cfg { kind: 5, h: 1, d: 2, area: 4, dom: Dom::Digit, depth: [1, 0, 0, 1, 0, 0], ..CFG0 });
-// @h prop=C10 unwind=10 rec=2 cutfmt=1 uw=same_output.0:25;exit_model.0:25;exit.0:25;push.0:17;write.0:17 timeout=600 mem=12 what=형_with_stdin_selected_and_no_area:pushes_onto_the_input_buffer,commits,no_read
+// @h prop=C10 unwind=10 rec=2 cutfmt=1 uw=same_output.0:25;exit_model.0:25;exit.0:25;push.0:17;write.0:17 timeout=1200 mem=12 what=형_with_stdin_selected_and_no_area:pushes_onto_the_input_buffer,commits,no_read
 ostep!(n_push_c0, Cfg { kind: 0, h: 2, d: 2, cur: 0, depth: [1, 0, 0, 0, 0, 0], ..CFG0 });
 
 // vacuity twin (must FAIL)
-// @h prop=C02 unwind=10 rec=2 cutfmt=1 uw=same_output.0:25;exit_model.0:25;exit.0:25;push.0:17;write.0:17 timeout=600 mem=12 kind=twin
+// @h prop=C02 unwind=10 rec=2 cutfmt=1 uw=same_output.0:25;exit_model.0:25;exit.0:25;push.0:17;write.0:17 timeout=1200 mem=12 kind=twin
 #[cfg_attr(kani, kani::proof)]
 #[cfg_attr(kani, kani::stub(crate::number::num::Num::add, m_num_add))]
 #[cfg_attr(kani, kani::stub(crate::number::num::Num::mul, m_num_mul))]
@@ -210,7 +210,7 @@ pub fn twin_ostep() {
     opt_check(&c);
     assert!(false);
 }
-// @h prop=C10 unwind=10 rec=2 cutfmt=1 uw=same_output.0:25;exit_model.0:25;exit.0:25;push.0:17;write.0:17 timeout=600 mem=12 kind=twin
+// @h prop=C10 unwind=10 rec=2 cutfmt=1 uw=same_output.0:25;exit_model.0:25;exit.0:25;push.0:17;write.0:17 timeout=1200 mem=12 kind=twin
 #[cfg_attr(kani, kani::proof)]
 #[cfg_attr(kani, kani::stub(crate::number::num::Num::add, m_num_add))]
 #[cfg_attr(kani, kani::stub(crate::number::num::Num::mul, m_num_mul))]
